@@ -6,29 +6,228 @@ def _c08_case(c):
     p = c.split(" ")
     if len(p) > 1 and p[0] == "H" and p[1] != "-":
         return {"meta": p[1]}
+    if p[0] == "F":
+        return {"tarfs": c}
     return {"raw": c}
+
+
+# ---- thorough tier: a sample of the correspondence cases is re-evaluated inside Coq with
+# vm_compute (same pseudo-random map orders as ml/c08_main.ml) and compared with what the
+# extracted runner printed: a cross-check of the extraction and of the OCaml driver.
+_VM_PRELUDE = """From Coq Require Import List Arith Bool.
+Import ListNotations.
+From Oras Require Import Model.OciIndex.
+Definition nodeT := (bool * bool * bool * list nat * option nat)%type.
+Definition u_get (u : list nodeT) (k : nat) : nodeT := nth k u (false, false, false, [], None).
+Definition u_mf u k := match u_get u k with (a, _, _, _, _) => a end.
+Definition u_dflt u k := match u_get u k with (_, a, _, _, _) => a end.
+Definition u_sk u k := match u_get u k with (_, _, a, _, _) => a end.
+Definition u_succs u k := match u_get u k with (_, _, _, a, _) => a end.
+Definition u_subj u k := match u_get u k with (_, _, _, _, a) => a end.
+Definition obs_all (u : list nodeT) (T : nat) (froms : list nat) (s : store) :=
+  (obs_tags T s, map (fun f => obs_tags_from T f s) froms, map (obs_resolve_tag s) (seq 0 T),
+   map (fun k => (obs_resolve_dig (u_dflt u) s k, obs_exists s k, obs_preds (length u) (u_succs u) s k))
+       (seq 0 (length u))).
+Definition vm_case (u : list nodeT) (T : nat) (froms : list nat) (cfg : config) (h : list (op * orders)) :=
+  let N := length u in
+  let sr := fold_left (fun acc oo =>
+              let r := step N (u_mf u) (u_succs u) (u_subj u) (u_sk u) true true true cfg (fst acc) oo in
+              (fst r, snd acc ++ [snd r])) h (store_empty, []) in
+  let s := fst sr in
+  (snd sr, obs_all u T froms s, obs_all u T froms (reopen N (u_mf u) (u_succs u) s), disk_valid s).
+"""
+
+
+def _vm_nats(xs):
+    return "[" + ";".join(str(x) for x in xs) + "]"
+
+
+class _Lcg:
+    def __init__(self, cid):
+        try:
+            n = int(cid[1:])
+        except ValueError:
+            n = 0
+        self.s = n * 7919 + 17
+
+    def rnd(self):
+        self.s = (self.s * 1103515245 + 12345) & 0x3fffffff
+        return (self.s >> 8) & 0xffff
+
+    def rlist(self, k):
+        return [self.rnd() % 13 for _ in range(k)]
+
+    def orders(self):
+        a, b, c = self.rlist(10), self.rlist(10), self.rlist(10)
+        d = [self.rlist(10) for _ in range(6)]
+        e = []
+        for _ in range(8):
+            x = self.rlist(5)
+            y = self.rlist(5)
+            e.append((x, y))
+        return "(mkOrd %s %s %s [%s] [%s])" % (
+            _vm_nats(a), _vm_nats(b), _vm_nats(c), ";".join(_vm_nats(x) for x in d),
+            ";".join("(%s,%s)" % (_vm_nats(x), _vm_nats(y)) for x, y in e))
+
+
+def _vm_ref(t):
+    return "None" if t == "-" else "(Some (%s %s))" % ("RTag" if t[0] == "t" else "RDig", t[1:])
+
+
+def _vm_obs(txt, n, T, froms):
+    """Parse one observation string of ml/c08_main.ml into the Coq value of obs_all."""
+    tags, tf, rt, nodes = [], {}, {}, {}
+    for f in txt.split(";"):
+        k, _, v = f.partition("=")
+        if k == "tags":
+            tags = [int(x) for x in v.split(",") if x]
+        elif k.startswith("tf"):
+            tf[int(k[2:])] = [int(x) for x in v.split(",") if x]
+        elif k.startswith("rt"):
+            a = v.split(".")
+            rt[int(k[2:])] = "(Some (mkDesc %s %s %s))" % (a[0], a[1], _vm_ref(a[2]))
+        elif k.startswith("k"):
+            rd, e, p = v.split(",")
+            i = int(k[1:])
+            if rd not in ("D", "B", "N"):
+                return None
+            rdv = {"D": "(DPlain %d)" % i, "B": "(DBlob %d)" % i, "N": "DNotFound"}[rd]
+            nodes[i] = "(%s, %s, %s)" % (rdv, "true" if e == "e1" else "false",
+                                         _vm_nats([int(x) for x in p[1:].split(".") if x]))
+    return "(%s, [%s], [%s], [%s])" % (
+        _vm_nats(tags), ";".join(_vm_nats(tf.get(f, [])) for f in froms),
+        ";".join(rt.get(t, "None") for t in range(T)), ";".join(nodes[i] for i in range(n)))
+
+
+def _vm_goal(cid, case, out):
+    p = case.split(" ")
+    if p[0] != "H":
+        return None
+    cfg = "(mkCfg %s %s)" % ("true" if p[2] == "1" else "false", "true" if p[3] == "1" else "false")
+    n, T = int(p[4]), int(p[5])
+    froms = [int(x) for x in p[6].split(",")]
+    nodes = []
+    for tok in p[7:7 + n]:
+        fl, su, sb = tok.split(":")
+        nodes.append("(%s, %s, %s, %s, %s)" % (
+            "true" if fl[0] == "m" else "false", "true" if fl[1] == "d" else "false",
+            "true" if fl[2] == "s" else "false",
+            _vm_nats([] if su == "-" else su.split(",")), "None" if sb == "-" else "(Some %s)" % sb))
+    ops = p[7 + n:]
+    res = out.split(" ")
+    if len(ops) != len(res) or not ops or ops[-1] != "C":
+        return None
+    lcg = _Lcg(cid)
+    hist, results = [], []
+    rmap = {"ok": "ROk", "exists": "RAlreadyExists", "notfound": "RNotFound",
+            "invalidref": "RInvalidReference", "hang": "RHang", "fuel": "ROutOfFuel"}
+    for op, r in zip(ops, res):
+        a = op[1:]
+        if op[0] in "CX":
+            continue
+        if op[0] == "P":
+            t = "OPush %s" % a
+        elif op[0] == "T":
+            k, x, an, rf = a.split(":")
+            t = "OTag (mkDesc %s %s %s) %s" % (k, x, "None" if an == "-" else "(Some (RTag %s))" % an,
+                                               "(RDig %s)" % k if rf == "d" else "(RTag %s)" % rf)
+        elif op[0] == "U":
+            t = "OUntag (RTag %s)" % a
+        elif op[0] == "V":
+            t = "OUntag (RDig %s)" % a
+        elif op[0] == "D":
+            t = "ODelete %s" % a
+        elif op[0] == "G":
+            t = "OGC"
+        elif op[0] == "S":
+            t = "OSave"
+        elif op[0] == "R":
+            t = "OReopen"
+        elif op[0] == "I":
+            t = "OInject %s" % a
+        else:
+            return None
+        if r not in rmap:
+            return None
+        hist.append("(%s, %s)" % (t, lcg.orders()))
+        results.append(rmap[r])
+    last = res[-1]
+    if not (last.startswith("C[") and last.endswith("]")):
+        return None
+    f = last[2:-1].split("|")
+    o1, o2 = _vm_obs(f[0], n, T, froms), _vm_obs(f[1], n, T, froms)
+    if o1 is None or o2 is None or f[1] != f[2] or f[1] != f[3]:
+        return None
+    return "vm_case [%s] %d %s %s [%s] = ([%s], %s, %s, %s)" % (
+        ";".join(nodes), T, _vm_nats(froms), cfg, ";\n  ".join(hist), ";".join(results), o1, o2,
+        "true" if f[4] == "v1" else "false")
+
+
+def _c08_vm_sample(d, tier, coq, build, want=200):
+    import os, subprocess
+    if tier != "thorough":
+        return []
+    outs = {}
+    with open(os.path.join(d, "model.txt")) as f:
+        for l in f:
+            i, _, o = l.rstrip("\n").partition(" ")
+            outs[i] = o
+    cands = []
+    with open(os.path.join(d, "cases.txt")) as f:
+        for l in f:
+            if len(l) <= 1500:
+                i, _, c = l.rstrip("\n").partition(" ")
+                if i in outs and c.startswith("H "):
+                    cands.append((i, c))
+    step = max(1, len(cands) // want)
+    goals = []
+    for i, c in cands[::step]:
+        g = _vm_goal(i, c, outs[i])
+        if g:
+            goals.append((i, g))
+        if len(goals) >= want:
+            break
+    vdir = os.path.join(build, "vm")
+    os.makedirs(vdir, exist_ok=True)
+    vf = os.path.join(vdir, "C08_cases.v")
+    with open(vf, "w") as f:
+        f.write(_VM_PRELUDE)
+        for i, g in goals:
+            f.write("\n(* %s *)\nGoal %s.\nProof. vm_compute. reflexivity. Qed.\n" % (i, g))
+    p = subprocess.run(["coqc", "-R", coq, "Oras", "-w", "-notation-overridden", vf], cwd=vdir, timeout=1500,
+                       stdout=subprocess.PIPE, stderr=subprocess.STDOUT, text=True)
+    with open(os.path.join(d, "vm_sample.txt"), "w") as f:
+        f.write("%d goals rc=%d\n%s" % (len(goals), p.returncode, p.stdout[-3000:]))
+    if p.returncode != 0:
+        return ["vm_compute re-evaluation of %d sampled histories inside Coq disagrees with the extracted runner "
+                "(or does not type-check): %s" % (len(goals), p.stdout[-1200:])]
+    if len(goals) < want // 2:
+        return ["vm_compute sample too small: %d goals" % len(goals)]
+    return []
 
 
 CONFIG = {
     "properties_file": "Properties/C08.v",
-    "proof_files": ["Proofs/OciIndex.v"],
-    "model_files": ["Model/OciIndex.v"],
+    "proof_files": ["Proofs/OciIndex.v", "Proofs/TarFS.v"],
+    "model_files": ["Model/OciIndex.v", "Model/TarFS.v"],
     "extract": "XC08.v",
     "ml_main": "c08_main.ml",
     "harness": "c08",
     "case_to_replay": _c08_case,
+    "post_model": _c08_vm_sample,
     "timeout_quick": 600,
+    "timeout_search": 240,
     "timeout_thorough": 3000,
     "assumptions": [
         "descriptor-consistent inputs: each digest is used under one media type and size (nodes of the model are digests); a tag name is never the digest string of another node (wf_history; C08_inconsistent_reference_example shows why); reference names are valid UTF-8 (encoding/json replaces invalid bytes)",
         "content.Successors / manifestutil.Subject / descriptor.IsManifest are parameters of the theorems (succs, subj, mf with succs k = [] for non-manifests); manifests in the universe are well-formed JSON; SHA-2 and the verification of pushed bytes (C05) are not modelled: a blob file is identified with its node",
         "graph.Memory is represented by its node set, Predecessors derived as {p in nodes | n in succs p} (graph.Memory's representation invariant, C07); IndexAll's per-call tracker is modelled as 'skip nodes already in the graph'; its goroutines are not modelled",
-        "Go map iteration orders (saveIndex two passes, gcIndex two passes, per Delete queue iteration the Referrers and Remove sets) are explicit choice lists and the theorems quantify over all of them; the untag loop of delete() is order-independent by construction (each step filters one key). The correspondence run uses identity orders (Go's order is not controllable), so it only generates histories whose compared observables do not depend on the order: AutoGC histories without referrers, without never-stored children and without tags moved between nodes; GC only when every untagged referrer's subject is in the tagged closure",
-        "encoding/json round trip of index.json, os file operations, archive/tar framing and internal/fs/tarfs (pos - blockSize arithmetic, PAX headers of sha512 blob names) are exercised by the harness on real directories and tars, not proved",
-        "the GC hang (F1, C09) is modelled as result RHang with the state unchanged and never generated; Store.GC errors of os.ReadDir/os.Remove and stray files under blobs/ are not modelled",
+        "Go map iteration orders (saveIndex two passes, gcIndex tagged pass and every round of the referrer pass, per Delete queue iteration the Referrers and Remove sets) are explicit choice lists and the theorems quantify over all of them; the untag loop of delete() is order-independent by construction. Go's order is not controllable, so the extracted model is run with pseudo-random orders and the compared observables must be (and on the repaired code are) independent of them; histories now include Delete cascades through referrers and never-stored children, GC with untagged subject chains and tags moved between nodes",
+        "encoding/json round trip of index.json and os file operations are exercised by the harness on real directories, not proved; internal/fs/tarfs is modelled at the level of cleaned names (Model/TarFS.v: last entry of a cleaned name wins, non-regular entries unsupported) and tied by unit cases through a verifhooks re-export; path.Clean is a parameter; archive/tar framing (the pos - blockSize re-read, PAX / GNU long-name records) is exercised on six archive styles, not proved",
+        "the model follows the repaired Delete / gcIndex / resolver.Memory.Tag of /repo main (C09's fixes); the referrer pass as found (GC hang, F1) is kept behind fixF1=false with result RHang (C08_gc_hang_prefix); os.ReadDir/os.Remove errors of GC's sweep are not modelled; files under blobs/ that are no content are modelled by kind (gc_sweeps_stray) outside the store record; blob files written behind the store's back (OInject) are restricted to non-manifest content in the theorems",
     ],
     "level_text": "Coq theorems over all histories of Push/Tag/Untag/Delete/GC/SaveIndex/read-write reopen, all universes (DAG, media types), both AutoGC settings and all Go map iteration orders: with AutoSaveIndex (or after SaveIndex) the store reloaded from index.json + blobs answers exactly like the running store (tag list, tag->descriptor up to the ref-name annotation, Resolve by digest, Exists/Fetch, Predecessors) and every index.json entry points to a stored blob; proved as a store invariant + 'index.json is an order-independent projection of the resolver map' + load-after-save identity, about an executable model that is extracted and run against content/oci on random histories over real directories reopened three ways (oci.New, NewFromFS(os.DirFS), NewFromTar), with an independent reopen/layout/predecessor oracle",
-    "level_note": "full for the repaired GC (two fix: commits: GC saves index.json; GC keeps digest references of kept content); the pre-fix code is refuted by C08_reopen_equiv_refuted_gc and C08_reopen_equiv_refuted_gc_digest_ref; tar framing, JSON and the file system are exercised, not proved; the three reopen paths share loadIndex in the model",
+    "level_note": "full for the repaired code (GC saves index.json; GC keeps digest references of kept content; C09's Delete/gcIndex/resolver fixes); the pre-fix code is refuted by C08_reopen_equiv_refuted_gc, C08_reopen_equiv_refuted_gc_digest_ref and C08_gc_hang_prefix; the three reopen paths share loadIndex over an fs.FS in the model: oci.New only adds file creation on a missing layout, NewFromTar adds internal/fs/tarfs, modelled separately (C08_tar_view: an archive of the directory gives the os.DirFS view); tar framing, JSON and the file system are exercised, not proved; thorough tier re-evaluates 200 sampled histories inside Coq (vm_compute) against the extracted runner",
     "technique": "machine-checked proof in Coq (store state machine, invariant over all histories and map iteration orders, load-after-save observational identity) + model/implementation correspondence on random histories + independent reopen/layout oracle",
     "explanation": "invariant (every stored manifest is referenced by digest and indexed; every reference points to stored content; index.json is a projection of the resolver map) proved for every history and map order; reopen = loadIndex of that projection proved observationally equal; model extracted and compared with content/oci on random histories with three-way reopening; independent oracle compares original and reopened stores, checks predecessors against the generator's edges and validates the raw directory",
 }
